@@ -29,6 +29,8 @@ func init() {
 			{ID: "C06.6", Doc: "a transaction is registered only for the duration of its exchange and removed under the key it was registered with, so a late or mismatched response finds nothing (shared with C07.3)", Floor: 4, Run: c07r3},
 			{ID: "C06.7", Doc: "refusals are enumerated: an eligible sender is turned away only because it is bad or its bucket is (still) full", Floor: 4, Run: c06r7},
 			{ID: "C06.8", Doc: "'an ID valid for its IP' is BEP 42 as specified: the 21 ID bits and the CRC input (shared with C17.1, C17.2)", Floor: 15, Run: func(w *World, rr *RuleRun) { c17r1(w, rr); c17r2(w, rr) }},
+			{ID: "C06.9", Doc: "a message flag (read-only) or sender id cannot leak from an earlier datagram: fresh decode target per datagram (shared with C07.7)", Floor: 1, Run: c07r7},
+			{ID: "C06.10", Doc: "the 'failed its liveness ping' mark is set only after the maintenance ping of that very contact failed, and cleared only together with recording a matched response", Floor: 2, Run: c06r10},
 			{ID: "C06.5", Doc: "blocked sources dropped first", Floor: 3, Run: c19r2},
 		},
 	})
@@ -430,4 +432,78 @@ func c06r7(w *World, rr *RuleRun) {
 	if nU == 0 {
 		rr.Oblige(shortFuncName(upd), "updateNode refuses only for a stated reason", w.P.Pos(upd.Pos()), false, "no refusing exit found")
 	}
+}
+
+// c06r10: a contact is "bad" (evictable, not propagated) while failedLastQuestionablePing is set.
+// Good contacts must not acquire the mark by any other route than a failed maintenance ping, and a
+// bad contact must not lose it merely by talking to us: only a matched response clears it.
+func c06r10(w *World, rr *RuleRun) {
+	flag := w.P.Field("", "node", "failedLastQuestionablePing")
+	lastResp := w.P.Field("", "node", "lastGotResponse")
+	qnp := w.P.Func("(*Server).questionableNodePing")
+	nSet, nClr := 0, 0
+	for _, ins := range w.FieldWrites(w.P.LibFuncs, flag) {
+		st, ok := ins.(*ssa.Store)
+		if !ok {
+			continue
+		}
+		v := w.TS.Of(st.Val)
+		fn := st.Parent()
+		switch {
+		case v.IsConst("true"):
+			nSet++
+			rr.At(w, ins, "a contact is marked as having failed its ping only by the maintenance ping routine", within(fn, qnp) || w.withinUp(fn, qnp), "in "+shortFuncName(fn))
+			if within(fn, qnp) || w.withinUp(fn, qnp) {
+				// and only on the failure path of that ping
+				w.Require(rr, w.outermostSiteIn(ins, qnp), "the mark is set only on the failure path of the ping", func(alt *Alt) (bool, string) {
+					if alt.Has("n", true, func(x *Term) bool { return x.Op == OpField && x.Name == "Err" }) {
+						return true, "ping error ≠ nil"
+					}
+					if alt.Has("n", false, func(x *Term) bool { return x.Op == OpField && x.Name == "R" }) {
+						return true, "reply has no r"
+					}
+					return false, "no failure fact"
+				})
+			}
+		case v.IsConst("false"):
+			nClr++
+			// every function that clears the mark records a response in the same body, and is not
+			// reachable from the query-side update
+			recordsResp := len(w.FieldWrites([]*ssa.Function{fn}, lastResp)) > 0
+			rr.At(w, ins, "the mark is cleared only together with recording a matched response", recordsResp, "in "+shortFuncName(fn))
+		default:
+			rr.At(w, ins, "the failed-ping mark is only ever stored as a constant", false, "stores "+trunc(v.String(), 80))
+		}
+	}
+	if nSet == 0 || nClr == 0 {
+		rr.Oblige("node.failedLastQuestionablePing", "the mark is both set and cleared somewhere", "-", false, fmt.Sprintf("%d set, %d clear sites", nSet, nClr))
+	}
+}
+
+// outermostSiteIn: the instruction in root (or one of its closures' creation points) that leads to
+// ins: ins itself when it is in root, else the MakeClosure of the closure chain containing it.
+func (w *World) outermostSiteIn(ins ssa.Instruction, root *ssa.Function) ssa.Instruction {
+	f := ins.Parent()
+	cur := ins
+	for f != root && f.Parent() != nil {
+		var mk ssa.Instruction
+		eachInstr([]*ssa.Function{f.Parent()}, func(_ *ssa.Function, i2 ssa.Instruction) {
+			if m, ok := i2.(*ssa.MakeClosure); ok && m.Fn == f {
+				mk = m
+			}
+			// a closure without captured variables is a plain function value used as an operand
+			if mk == nil {
+				for _, op := range i2.Operands(nil) {
+					if g, ok := (*op).(*ssa.Function); ok && g == f {
+						mk = i2
+					}
+				}
+			}
+		})
+		if mk == nil {
+			break
+		}
+		cur, f = mk, f.Parent()
+	}
+	return cur
 }
